@@ -24,9 +24,12 @@ Local Open Scope res_scope.
 
 Inductive skind := KXreplace | KSubs | KMsubs | KSsubs.
 
-(* does the visitor use SubsVisitor::bvisit(Pow)? *)
+(* does the visitor use SubsVisitor::bvisit(Pow)?  Only SubsVisitor itself: SSubsVisitor derives from
+   SubsVisitor but its `using XReplaceVisitor::bvisit;` together with its own bvisit declarations hides
+   SubsVisitor::bvisit(const Pow &), so ssubs dispatches Pow to XReplaceVisitor::bvisit(const Pow &)
+   (observed on the library: ssubs(x**4, {x**2: y}) = x**4 while subs gives y**2). *)
 Definition subs_pow (k : skind) : bool :=
-  match k with KSubs | KSsubs => true | _ => false end.
+  match k with KSubs => true | _ => false end.
 
 Definition find_key (k : expr) (sd : mdict) : option expr :=
   match mlookup k sd with Some (_, v) => Some v | None => None end.
